@@ -62,10 +62,14 @@ pub fn legal_controls(fam: Family) -> Vec<u8> {
 /// plus for r in b16_from..=b16_to all bodies over B16 for the legal control bytes.
 pub fn u_frame(fam: Family, full_r: usize, b16_from: usize, b16_to: usize, f: &(dyn Fn(&[u8]) + Sync)) -> u64 {
     let mut total = 0u64;
+    let legal = legal_controls(fam);
     for r in 0..=full_r {
         let n = 256u64.pow(r as u32);
-        total += 256 * n;
-        (0..256u32).into_par_iter().for_each(|c| {
+        // all 256 control bytes up to remaining length 2; beyond that the legal ones (an illegal
+        // control byte is rejected from the header alone, whatever follows)
+        let controls: Vec<u32> = if r <= 2 { (0..256u32).collect() } else { legal.iter().map(|c| *c as u32).collect() };
+        total += controls.len() as u64 * n;
+        controls.into_par_iter().for_each(|c| {
             let outer = if r >= 2 { 256 } else { 1 };
             (0..outer).into_par_iter().for_each(|o| {
                 let mut buf = vec![0u8; 2 + r];
